@@ -427,6 +427,26 @@ pub fn gen_c06(r: &mut Rng, id: u64, thorough: bool) -> Value {
         ops.push(json!({"op": "insert", "s": 0, "k": 2, "c": "c1", "n": n, "v": value(r), "t": mk_tags(r, nt), "e": null}));
     }
     let dump = json!({"op": "fetch_all", "s": 0, "k": null, "c": null, "f": null, "lim": null, "ord": true, "desc": false});
+    // every other case: BEFORE the fault rounds one or two calls of the session fail because they cannot even start (another
+    // session's open transaction holds the write lock past the busy timeout); the session object is kept — whatever bookkeeping
+    // such a failed start leaves behind must not weaken the all-or-nothing of the later calls
+    let contended = id % 2 == 1;
+    if contended {
+        ops.push(json!({"op": "session", "s": 9, "txn": true}));
+        ops.push(json!({"op": "insert", "s": 9, "k": 2, "c": "c9", "n": "lock", "v": value(r), "t": null, "e": null}));
+        let blocked = 1 + r.below(2);
+        for j in 0..blocked {
+            let nt = r.below(maxtags + 1);
+            let op = match r.below(3) {
+                0 => json!({"op": "insert", "s": 0, "k": 2, "c": "c1", "n": format!("blocked{}", j), "v": value(r), "t": mk_tags(r, nt), "e": null}),
+                1 => json!({"op": "replace", "s": 0, "k": 2, "c": "c1", "n": "n1", "v": value(r), "t": mk_tags(r, nt), "e": null}),
+                _ => json!({"op": "remove", "s": 0, "k": 2, "c": "c1", "n": "n1"}),
+            };
+            ops.push(op);
+        }
+        ops.push(json!({"op": "rollback", "s": 9}));
+        ops.push(dump.clone());
+    }
     let rounds = if thorough { 24 } else { 10 };
     for _ in 0..rounds {
         let n = *r.pick(&names);
@@ -454,7 +474,7 @@ pub fn gen_c06(r: &mut Rng, id: u64, thorough: bool) -> Value {
     ops.push(json!({"op": "drop", "s": 0}));
     ops.push(json!({"op": "session", "s": 1, "txn": false}));
     ops.push(json!({"op": "fetch_all", "s": 1, "k": null, "c": null, "f": null, "lim": null, "ord": true, "desc": false}));
-    json!({"id": id, "kind": "store", "prop": "C06", "file": true, "profile": "default", "ops": ops})
+    json!({"id": id, "kind": "store", "prop": "C06", "file": true, "params": if contended { "busy_timeout=100&max_connections=4" } else { "" }, "profile": "default", "ops": ops})
 }
 
 // ---------------------------------------------------------------------------------------------
